@@ -1,6 +1,7 @@
 (* C15 - Thread names are attached to the right threads.  Property theorems only. *)
 From Coq Require Import List NArith Arith.
 From MDW Require Import Bytes MemWriter Text ThreadNames.
+From MDW Require MemWriter Writer Hoare MiniDump Image ImageThreads.
 Import ListNotations.
 Local Open Scope nat_scope.
 
@@ -31,3 +32,15 @@ Print Assumptions C15_string_roundtrip.
 Theorem C15_refuted_mixed : out_len (names_write false ths2 []) = 28 /\ out_len (names_write true ths2 []) = 22.
 Proof. split; [exact names_orig_overruns | exact names_fixed_len]. Qed.
 Print Assumptions C15_refuted_mixed.
+
+(* The thread-names stream in the FINAL image of every dump: one record per name of the content, in order, each with the id
+   it was given for and the location of exactly the MINIDUMP_STRING of that name. *)
+Theorem C15_whole_image_thread_names : forall c dirs lg s',
+  Image.image c MiniDump.empty_wst = MemWriter.Ok ((dirs, lg), s') -> Hoare.small (Hoare.blen s') ->
+  let n := length (Image.ic_names c) in
+  exists rs off,
+    ImageThreads.run_rel (ImageThreads.name_says 248) (Writer.w_buf s') (Image.ic_names c) tt rs tt /\
+    slice (Writer.w_buf s') off (4 + Image.NAME_SZ * n) = le 4 (N.of_nat n) ++ concat (map Image.enc_name rs) /\
+    In (Image.T_NAMES, {| MemWriter.l_rva := N.of_nat off; MemWriter.l_size := (4 + N.of_nat (Image.NAME_SZ * n))%N |}) dirs.
+Proof. exact ImageThreads.image_thread_names. Qed.
+Print Assumptions C15_whole_image_thread_names.
